@@ -53,26 +53,31 @@ std::vector<const int*> flatten(const D& d) {
   return f;
 }
 
+// Is `it` at position p? First compared (operator==, no dereference) with a reference iterator that was stepped
+// there from begin() with ++ only; only an iterator that is equal to the reference is dereferenced, so a
+// mispositioned iterator is reported without reading through it.
 template <typename It>
 bool at(Case& c, const char* what, const It& it, const It& b, const It& e, const std::vector<const int*>& flat,
-        size_t p) {
+        size_t p, const std::vector<It>* refs = nullptr) {
   ++c.resultChecks;
   if (c.bad)
     return false;
   bool isEnd = it == e;
-  bool ok    = p == flat.size() ? isEnd : (!isEnd && &*it == flat[p]);
+  bool ok    = (p == flat.size()) == isEnd;
+  if (ok && refs)
+    ok = it == (*refs)[p];
+  if (ok && !isEnd)
+    ok = &*it == flat[p];
   if (ok && (p == 0) != (it == b))
     ok = false;
   if (!ok) {
     long where = -1;
-    if (!isEnd) {
-      const int* a = &*it;
-      for (size_t i = 0; i < flat.size(); ++i)
-        if (flat[i] == a)
+    if (refs) {
+      for (size_t i = 0; i < refs->size(); ++i)
+        if (it == (*refs)[i])
           where = (long)i;
-    } else
-      where = (long)flat.size();
-    c.fail(what, J().kv("expected_position", (uint64_t)p).kv("actual_position_or_-1_if_not_an_element", where)
+    }
+    c.fail(what, J().kv("expected_position", (uint64_t)p).kv("equals_reference_iterator_at_position_or_-1", where)
                      .kv("sequence_length", (uint64_t)flat.size()).kv("compares_equal_to_end", isEnd));
   }
   ++c.visited;
@@ -85,7 +90,8 @@ template <typename F, typename It>
 void walk(Case& c, It b, It e, const std::vector<const int*>& flat, bool backJumps, unsigned nops) {
   Rng& rng = c.rng;
   size_t n = flat.size(), p = 0;
-  // full forward pass
+  // full forward pass (dereferences only while the length is as expected); keeps a reference iterator per position
+  std::vector<It> refs;
   {
     c.op("forward-pass");
     It it = b;
@@ -93,11 +99,14 @@ void walk(Case& c, It b, It e, const std::vector<const int*>& flat, bool backJum
     for (; i <= n && !c.bad; ++i) {
       if (!at(c, "position", it, b, e, flat, i))
         break;
+      refs.push_back(it);
       if (i < n)
         ++it;
     }
     ++c.checks;
   }
+  if (c.bad)
+    return;
   if constexpr (F::bidir) {
     if (!c.bad && n > 0) {
       c.op("backward-pass");
@@ -105,7 +114,7 @@ void walk(Case& c, It b, It e, const std::vector<const int*>& flat, bool backJum
       for (size_t i = n; i > 0 && !c.bad;) {
         --it;
         --i;
-        at(c, "position", it, b, e, flat, i);
+        at(c, "position", it, b, e, flat, i, &refs);
       }
       ++c.checks;
     }
@@ -124,7 +133,7 @@ void walk(Case& c, It b, It e, const std::vector<const int*>& flat, bool backJum
         // (TwoLevelIterator.h: it++ returns the forward base class, so only the element is compared)
         auto old = it++;
         ++c.resultChecks;
-        if (&*old != flat[p])
+        if (!(old == refs[p]))
           c.fail("returned-old-position", J().kv("position", (uint64_t)p));
       }
       ++p;
@@ -137,7 +146,7 @@ void walk(Case& c, It b, It e, const std::vector<const int*>& flat, bool backJum
           c.op("post-decrement");
           auto old = it--;
           ++c.resultChecks;
-          if (p < n && &*old != flat[p])
+          if (!(old == refs[p]))
             c.fail("returned-old-position", J().kv("position", (uint64_t)p));
         }
         --p;
@@ -150,17 +159,18 @@ void walk(Case& c, It b, It e, const std::vector<const int*>& flat, bool backJum
         k          = -(long)(1 + rng.below(lim));
       } else
         k = (long)rng.below(n - p + 1);
-      c.op(k < 0 ? "advance-backward" : "advance-forward", k);
+      c.op(k < 0 ? "advance-backward" : "advance-forward", k, NOARG,
+           k < -1 ? "backward-jump" : k == -1 ? "backward-step" : "forward-jump");
       std::advance(it, k);
       p = (size_t)((long)p + k);
     } else if (x < 58 && F::jumps) {
       if constexpr (F::jumps) {
         size_t k = rng.below(n - p + 1);
         if (rng.below(2)) {
-          c.op("plus-assign", (long)k);
+          c.op("plus-assign", (long)k, NOARG, "forward-jump");
           it += (ptrdiff_t)k;
         } else {
-          c.op("plus", (long)k);
+          c.op("plus", (long)k, NOARG, "forward-jump");
           it = it + (ptrdiff_t)k;
         }
         p += k;
@@ -170,10 +180,10 @@ void walk(Case& c, It b, It e, const std::vector<const int*>& flat, bool backJum
         size_t lim = backJumps ? p : 1;
         size_t k   = 1 + rng.below(lim);
         if (rng.below(2)) {
-          c.op("minus-assign", (long)k);
+          c.op("minus-assign", (long)k, NOARG, k > 1 ? "backward-jump" : "backward-step");
           it -= (ptrdiff_t)k;
         } else {
-          c.op("minus", (long)k);
+          c.op("minus", (long)k, NOARG, k > 1 ? "backward-jump" : "backward-step");
           it = it - (ptrdiff_t)k;
         }
         p -= k;
@@ -183,13 +193,17 @@ void walk(Case& c, It b, It e, const std::vector<const int*>& flat, bool backJum
         size_t k = rng.below(n - p);
         c.op("subscript", (long)k);
         ++c.resultChecks;
-        const int* a;
-        if constexpr (F::bracket)
-          a = &it[(ptrdiff_t)k];
-        else
-          a = &*(it + (ptrdiff_t)k);
-        if (a != flat[p + k])
-          c.fail("subscript-element", J().kv("position", (uint64_t)p).kv("offset", (uint64_t)k));
+        if (!((it + (ptrdiff_t)k) == refs[p + k]))
+          c.fail("plus-offset-position", J().kv("position", (uint64_t)p).kv("offset", (uint64_t)k));
+        else {
+          const int* a;
+          if constexpr (F::bracket)
+            a = &it[(ptrdiff_t)k];
+          else
+            a = &*(it + (ptrdiff_t)k);
+          if (a != flat[p + k])
+            c.fail("subscript-element", J().kv("position", (uint64_t)p).kv("offset", (uint64_t)k));
+        }
       }
     } else if (x < 90) {
       // distance from begin (never negative: fine for every flavour)
@@ -212,7 +226,7 @@ void walk(Case& c, It b, It e, const std::vector<const int*>& flat, bool backJum
       c.eq("copy-equal", cp == it, true);
       c.eq("copy-not-unequal", cp != it, false);
     }
-    at(c, "position", it, b, e, flat, p);
+    at(c, "position", it, b, e, flat, p, &refs);
   }
 }
 
